@@ -295,7 +295,20 @@ class Engine:
             ob.backend = "simplifier"
         else:
             t0 = time.time()
-            status, model, backend, secs = smt.check_sat(self.pc + [z3.Not(g)], self.sh.timeout_ms)
+            status = None
+            n_entry = getattr(self, "pc_entry_len", None)
+            if kind == "lemma" and n_entry is not None and n_entry < len(self.pc):
+                # lemmas are usually pure arithmetic facts: try with the entry hypotheses only (parameter types + requires);
+                # using fewer hypotheses is sound for 'unsat' and keeps nonlinear queries small and stable
+                try:
+                    r0 = smt._core_check(self.pc[:n_entry] + list(getattr(self, "lemma_facts", [])) + [z3.Not(g)], min(4000, self.sh.timeout_ms),
+                                         want_model=False, allow_sat=False)
+                except z3.Z3Exception:
+                    r0 = None
+                if r0 is not None:
+                    status, model, backend, secs = r0[0], None, r0[2] + "(entry-hyps)", 0.0
+            if status is None:
+                status, model, backend, secs = smt.check_sat(self.pc + [z3.Not(g)], self.sh.timeout_ms)
             ob.status = status
             ob.backend = backend
             ob.secs = time.time() - t0
@@ -308,6 +321,10 @@ class Engine:
         self.sh.obligations.append(ob)
         if assume_after:
             self.assume(g)
+            if kind == "lemma":
+                if not hasattr(self, "lemma_facts"):
+                    self.lemma_facts = []
+                self.lemma_facts.append(g)
         return ob.status == "unsat"
 
     def model_to_dict(self, model):
@@ -378,8 +395,17 @@ class Engine:
         if isinstance(v, VObj):
             out = {"obj": getattr(v.cls, "__name__", str(v.cls)), "ref": ev(v.t).as_long()}
             depth = getattr(self, "_conc_depth", 0)
+            if isinstance(v.cls, MapCls) and depth < 4:
+                self._conc_depth = depth + 1
+                try:
+                    out["entries"] = self._conc_map(v, model)
+                except Exception as e:  # pragma: no cover
+                    out["entries_error"] = str(e)[:80]
+                finally:
+                    self._conc_depth = depth
+                return out
             fields = self.registry.class_fields.get(v.cls)
-            if fields and depth < 3 and not isinstance(v.cls, MapCls):
+            if fields and depth < 4 and not isinstance(v.cls, MapCls):
                 self._conc_depth = depth + 1
                 try:
                     fv = {}
@@ -393,6 +419,47 @@ class Engine:
                     self._conc_depth = depth
             return out
         return "<%s>" % type(v).__name__
+
+    def _conc_map(self, mobj, model):
+        """Entry-state contents of a heap map in the model: [[key, value], ...] for the keys the model makes present. Candidate keys:
+        indices of the model's array value (store chain / function interpretation) plus every small integer the model mentions."""
+        ev = lambda t: model.eval(t, model_completion=True)
+        heap0 = self.heap0 if self.heap0 is not None else self.heap
+        arrs = self._map_arrays(mobj.cls)
+
+        def arr(key, sort):
+            a = heap0.get(key)
+            if a is None:
+                a = self.heap_init.get(key)
+            if a is None:
+                a = z3.Array(self.fresh_name("H." + key), z3.IntSort(), z3.ArraySort(z3.IntSort(), sort))
+            return a
+        pres = z3.Select(arr(arrs[0][0], arrs[0][1]), mobj.t)
+        cands = set(range(0, 9))
+        try:
+            for d in model.decls():
+                val = model[d]
+                if z3.is_int_value(val):
+                    cands.add(val.as_long())
+        except Exception:
+            pass
+        pv = ev(pres)
+        stack, seen = [pv], 0
+        while stack and seen < 2000:
+            t = stack.pop()
+            seen += 1
+            if z3.is_int_value(t):
+                cands.add(t.as_long())
+            elif z3.is_app(t):
+                stack.extend(t.children())
+        out = []
+        for k in sorted(cands):
+            if len(out) >= 16:
+                break
+            if z3.is_true(ev(z3.Select(pres, z3.IntVal(k)))):
+                leaves = [z3.Select(z3.Select(arr(hk, s_), mobj.t), z3.IntVal(k)) for hk, s_ in arrs[1:]]
+                out.append([k, self.concretise(self.from_leaves(leaves, mobj.cls.valT), model)])
+        return out
 
     def _conc_field(self, obj, fname, ft, model):
         """Entry-state value of a heap field in the model."""
@@ -1041,6 +1108,42 @@ class Engine:
             outer = self.heap_arr(hk, z3.ArraySort(z3.IntSort(), s_))
             fv = z3.Const(self.fresh_name("mapv"), s_)
             self.heap[hk] = z3.Store(outer, mobj.t, z3.Store(z3.Select(outer, mobj.t), k, fv))
+
+    def map_items(self, mobj):
+        """Snapshot of the (key, value) pairs of an int-keyed heap map as a symbolic list in an arbitrary but fixed order
+        (dict iteration order is not modelled): keys pairwise distinct, exactly the present keys. Memoised per heap state so that
+        two mentions (code and clause) denote the same list."""
+        arrs = self._map_arrays(mobj.cls)
+        cur = [self.heap_arr(hk, z3.ArraySort(z3.IntSort(), s_)) for hk, s_ in arrs]
+        mkey = ("map_items", mobj.t.get_id()) + tuple(a.get_id() for a in cur)
+        hit = self.memo.get(mkey)
+        if hit is not None:
+            return hit
+        n = z3.Int(self.fresh_name("items.len"))
+        karr = z3.Array(self.fresh_name("items.key"), z3.IntSort(), z3.IntSort())
+        idx = z3.Function(self.fresh_name("items.idx"), z3.IntSort(), z3.IntSort())
+        present = z3.Select(cur[0], mobj.t)
+        j = z3.Int(self.fresh_name("ij"))
+        k = z3.Int(self.fresh_name("ik"))
+        self.assume(n >= 0)
+        # every listed key is present, and idx is the inverse of the listing (hence keys are pairwise distinct)
+        self.assume(z3.ForAll([j], z3.Implies(z3.And(j >= 0, j < n), z3.And(z3.Select(present, z3.Select(karr, j)), idx(z3.Select(karr, j)) == j)),
+                              patterns=[z3.Select(karr, j)]))
+        # every present key is listed
+        self.assume(z3.ForAll([k], z3.Implies(z3.Select(present, k), z3.And(idx(k) >= 0, idx(k) < n, z3.Select(karr, idx(k)) == k)),
+                              patterns=[z3.Select(present, k)]))
+        elemT = TTuple(PyInt, mobj.cls.valT)
+        varrs = []
+        for (hk, s_), a in list(zip(arrs, cur))[1:]:
+            va = z3.Array(self.fresh_name("items.val"), z3.IntSort(), s_)
+            self.assume(z3.ForAll([j], z3.Implies(z3.And(j >= 0, j < n), z3.Select(va, j) == z3.Select(z3.Select(a, mobj.t), z3.Select(karr, j))),
+                                  patterns=[z3.Select(va, j)]))
+            varrs.append(va)
+        loc = self.new_loc()
+        self.lists[loc] = ["sym", n, [karr] + varrs, elemT]
+        out = VList(loc)
+        self.memo[mkey] = out
+        return out
 
     def new_map(self, valT):
         """Fresh empty map object."""
@@ -1911,6 +2014,9 @@ class Engine:
             j = z3.Int(self.fresh_name("j"))
             leaves = self.to_leaves(item, st[3])
             return z3.Exists([j], z3.And(j >= 0, j < st[1], z3.And([z3.Select(a, j) == t for a, t in zip(st[2], leaves)])))
+        if isinstance(container, VObj) and isinstance(container.cls, MapCls):
+            got = self.map_get(container, item)
+            return z3.Not(got.is_none) if isinstance(got, VOpt) else z3.BoolVal(not isinstance(got, VNone))
         if isinstance(container, VMap):
             try:
                 k = self.lower(item)
